@@ -498,6 +498,13 @@ func (P) Gen(r *core.Rand, tier string, emit func([]string)) {
 		n = 40000
 	}
 	scopeMatrix(emit)
+	races := 24
+	if tier == "thorough" {
+		races = 400
+	}
+	for i := 0; i < races; i++ {
+		emit([]string{"race " + strconv.FormatUint(r.U64()>>1, 10) + " " + strconv.Itoa(r.Range(4, 12)) + " " + strconv.Itoa(r.Range(2, 6)) + " " + strconv.Itoa(r.Range(50, 300))})
+	}
 	wide := n / 5
 	for i := 0; i < n; i++ {
 		if i%5 == 0 && i/5 < wide {
